@@ -99,6 +99,11 @@ CHECKS = {
     text="Pipeline.tla models each stage by what its own property guarantees (any strictly increasing knee list, RunMin, any subsequence, MapSpec) and TLC shows subsequence/height-monotonicity/strictly-increasing-mapped invariants for n<=6; the harness runs simplify -> multi_knee -> worst -> corner -> cluster -> mapping with the real functions (5 simplifiers x 5 detectors x 4 linkages x 4 modes, covering sample in quick, ~230 pipelines) and Trace_Pipeline evaluates the invariants after every stage: stage completes, filter output a subsequence of its input, heights non-increasing from the worst filter on, mapped indices strictly increasing, retained points, bit-identical coordinates.",
     note="demo scripts not executed (argparse/matplotlib); heights compared exactly; curves up to a few hundred points",
     ref="5/C08"),
+ "C10": dict(
+    technique="TLC model checking of the Z-method round machine (candidate groups split at x gaps, y-band selection guard, band removal, threshold lowering, final sweep) for arbitrary z-level tables against ZOk (negative instances: y-band guard dropped, one side of the x band dropped) + TLC trace validation of zmethod.knees calls with integer x, height ranks and y-separation tables",
+    text="ZMethod.tla mirrors getPoints round by round; TLC proves termination, a linear round bound and ZOk (valid strictly increasing indices, non-increasing heights, pairwise x separation >= w and y separation) for n<=6, and that each negative variant violates ZOk; ~3k recorded zmethod.knees calls per quick run on miss-ratio-like curves (plateaus, rounded heights, with/without x_max / y_range overrides) are judged by Trace_ZMethod including the loop back-edge bound ceil((3-zmin)/dz)+n+2.",
+    note="x integral by precondition; y separation with 1e-12 slack in the code's favour; uts.gradient/zscore trusted; the machine's unique prediction is compared as DRIFT only",
+    ref="5/C10"),
 }
 
 PENDING = {}
